@@ -52,6 +52,14 @@ def main():
         ok_demo = res['with_change']['exit'] != 0 and res['without_change']['exit'] == 0
         rec['confirmed'] = bool(ok_base and ok_demo)
         verdicts = {}
+        # a verdict on the changed tree says something about the change only if the same check is silent on the unchanged one: with an oracle that is
+        # ahead of /repo (a clean-tree defect it already knows, not repaired yet) every change would look "reported" (this happened once, §11 round 5)
+        for c in checks:
+            env0 = dict(os.environ, PYVC_REPO=clean)
+            p0 = subprocess.run([os.path.join(VERIF, 'check'), c, '--tier', 'quick'], capture_output=True, text=True, env=env0, cwd=VERIF, timeout=3600)
+            if p0.returncode != 0:
+                print('check %s does not hold on the unchanged tree (exit %d): repair that first, then confirm changes' % (c, p0.returncode))
+                return 2
         for c in checks:
             env2 = dict(os.environ)
             env2['PYVC_REPO'] = mut
